@@ -106,7 +106,13 @@ def cases(draw):
     queries = draw(st.lists(st.sampled_from(['queue', 'pop', 'pop-twice', 'pop-unknown', 'pop-file-bad']), max_size=6))
     poll = draw(st.one_of(st.booleans(), st.sampled_from([0, 1, 60000, 2 ** 31 - 1, 2 ** 31, 2 ** 40]).map(lambda v: {'interval': v}),
                           st.sampled_from(['dtn://s1/\x00', '', 'dtn://\u4e2d/']).map(lambda v: {'interval': 1000, 'nodeid': v})))
-    return {'mtu': mtu, 'sends': sends, 'ops': ops, 'queries': queries, 'poll': poll}
+    restart = None
+    if mtu is not None and draw(st.sampled_from([0, 0, 1])):
+        # ids are reused only after far more time than a reassembly can take (ten minutes and more)
+        restart = {'dup': draw(st.integers(0, 7)), 'gap_ms': draw(st.sampled_from([600000, 3600000])), 'same_len': draw(st.booleans()),
+                   'order': draw(st.lists(st.integers(0, 9), max_size=6)), 'dup_last': draw(st.booleans())}
+        sends[0] = {'plen': min(max(sends[0]['plen'], 2 * mtu + 10), 3000), 'seed': sends[0]['seed'], 'peer': 1}
+    return {'mtu': mtu, 'sends': sends, 'ops': ops, 'queries': queries, 'poll': poll, 'restart': restart}
 
 
 # --- execution ------------------------------------------------------------------------------
@@ -279,10 +285,11 @@ def execute(case, out):
             break
         dg = pending.pop(a % len(pending))
         order.append(dg)
-        if kind == 'p':
+        if kind == 'p' and len(dg['data']) + 1 + b % 9 <= simudp.UDP_MAX:
             feed(dg['data'] + b'\x00' * (1 + b % 9), dg['src'])
         elif kind == 'c' and pending:
-            other = [i for i, x in enumerate(pending) if x['src'] == dg['src']]
+            # (what is put into one datagram must still fit one datagram)
+            other = [i for i, x in enumerate(pending) if x['src'] == dg['src'] and len(x['data']) + len(dg['data']) <= simudp.UDP_MAX]
             if other:
                 dg2 = pending.pop(other[b % len(other)])
                 order.append(dg2)
@@ -352,7 +359,10 @@ def execute(case, out):
     if done:
         if len(fin) < len([1 for _p, b, _d in originals if not hasattr(b, 'exc')]):
             out.fail('bundle-lost', '%d bundles were sent and every datagram delivered, only %d were queued' % (len(originals), len(fin)))
-    for ag in [recv] + list(senders.values()):
+    extra_agents = []
+    if case.get('restart'):
+        extra_agents = _restart_phase(case, out, recv, senders, originals, net, mtu)
+    for ag in [recv] + list(senders.values()) + extra_agents:
         for esc in ag.ctx.escapes:
             out.fail('escape:%s@%s' % (esc.exc_type, esc.frame), 'exception escaped a main-loop callback (%s): %s: %s'
                      % (esc.source, esc.exc_type, esc.exc_msg[:120]))
@@ -366,6 +376,96 @@ def execute(case, out):
     if not in_order:
         out.label('reordered')
     return trace
+
+
+def _restart_phase(case, out, recv, senders, originals, net, mtu):
+    ''' The peer behind sender 1 is restarted (C13: "interleaved with segments of other transfers or peers"): its
+    transfer numbering starts again, from the same address and port.  Before that, the network repeats one segment of
+    a transfer the receiver has long completed, and more time than any reassembly could take passes.  The receiver
+    gets every segment of the new transfer once: it must queue nothing while octets are missing and then exactly
+    the new bundle. '''
+    spec = case['restart']
+    first = [(bid, data) for peer, bid, data in originals if peer == 1 and not hasattr(bid, 'exc')]
+    mine = [d for d in net.sent_log if d.get('owner') == senders[1].name]
+    segs = [(d, parse_segment(d['data'])) for d in mine]
+    segs = [(d, k) for d, k in segs if k[0] == 'segment' and first and k[1] == int(first[0][0])]
+    if len(segs) < 2:
+        out.label('restart-not-applicable')
+        return []
+    old_bid, old_data = first[0]
+    src = segs[0][0]['src']
+    # everything announced so far has been popped by the caller of this phase; repeat one old segment
+    dup = segs[spec['dup'] % len(segs)][0]
+    before = len(recv.signals('recv_bundle_finished'))
+    net.deliver(dict(src=src, dst=RECV, data=dup['data']))
+    recv.settle()
+    simloop.advance_to(simloop.CLOCK.now_ms + int(spec['gap_ms']))
+    recv.settle()
+    if len(recv.signals('recv_bundle_finished')) != before:
+        out.fail('repeat-after-completion-queues', 'one repeated segment of a completed transfer made the receiver announce a bundle')
+    # the restarted peer: same host, same source port, transfer ids from 0 again
+    for sock in list(net.bound.values()):
+        if (sock.host, sock.port) == tuple(src):
+            sock.close()
+    fresh = Agent(senders[1].host, mtu=mtu, node_id='dtn://s1/')
+    same_len = bool(spec['same_len'])
+    plen = 0
+    data = make_bundle(plen, 1000 + spec['dup'])
+    want_len = len(old_data) if same_len else len(old_data) + 1 + spec['dup'] % 5
+    for _ in range(4):
+        diff = want_len - len(data)
+        if diff == 0:
+            break
+        plen = max(0, plen + diff)
+        data = make_bundle(plen, 1000 + spec['dup'])
+    mark = len(net.sent_log)
+    del net.inflight[:]
+    bid = fresh.call('send_bundle_data', dbus.ByteArray(data),
+                     dbus.Dictionary({'address': RECV[0], 'port': RECV[1], 'local_port': dbus.UInt16(src[1])}, signature='sv'))
+    if hasattr(bid, 'exc'):
+        out.fail('restart-send-error', 'send_bundle_data at the restarted peer raised %r' % (bid,))
+        return [fresh]
+    run_senders([fresh], max_ms=simloop.CLOCK.now_ms + 400000)
+    new = net.sent_log[mark:]
+    del net.inflight[:]
+    kinds = [parse_segment(d['data']) for d in new]
+    if not new or any(tuple(d['src']) != tuple(src) for d in new) or not all(k[0] == 'segment' for k in kinds) \
+            or int(kinds[0][1]) != int(old_bid):
+        out.label('restart-no-id-reuse')
+        return [fresh]
+    out.label('restart:same-length' if len(data) == len(old_data) else 'restart:other-length')
+    order = list(range(len(new)))
+    perm = []
+    for pick in spec['order']:
+        if order:
+            perm.append(order.pop(pick % len(order)))
+    perm += order
+    if spec.get('dup_last'):
+        # the segment that overlaps the repeated one arrives last
+        for pos, idx in enumerate(perm):
+            if kinds[idx][3] == parse_segment(dup['data'])[3]:
+                perm.append(perm.pop(pos))
+                break
+    for num, idx in enumerate(perm, 1):
+        net.deliver(dict(src=src, dst=RECV, data=new[idx]['data']))
+        recv.settle()
+        fin = recv.signals('recv_bundle_finished')[before:]
+        if num < len(perm) and fin:
+            out.fail('queued-while-octets-missing', 'after %d of %d segments of the new transfer (each delivered once) the receiver '
+                     'already announced a bundle (restart after %d ms, one stale repeated segment of transfer %s)'
+                     % (num, len(perm), spec['gap_ms'], old_bid))
+            break
+    fin = recv.signals('recv_bundle_finished')[before:]
+    got = []
+    for ev in fin:
+        res = recv.call('recv_bundle_pop_data', str(ev['args'][0]))
+        got.append(None if hasattr(res, 'exc') else bytes(res))
+    if got != [data]:
+        kind = 'nothing' if not got else ('a corrupted bundle' if len(got) == 1 else '%d bundles' % len(got))
+        out.fail('restarted-peer-transfer-wrong', 'every segment of the restarted peer transfer %s was delivered once, the receiver '
+                 'queued %s instead of exactly that bundle (%d octets, old transfer %d octets, gap %d ms)'
+                 % (bid, kind, len(data), len(old_data), spec['gap_ms']))
+    return [fresh]
 
 
 def judge_dbus(case, out):
